@@ -22,7 +22,7 @@ class G(memfs_gen.Gen):
 
 
 def gen(tier, rng):
-    n, ln = (150, 30) if tier == 'quick' else (4000, 50)
+    n, ln = (50, 25) if tier == 'quick' else (3000, 50)
     out = []
     for names, prof in ((['a', 'b'], 'mixed'), (['a', 'b', 'c'], 'tree'), (['a', 'b'], 'links')):
         g = G(rng, names=names, profile=prof)
@@ -189,6 +189,10 @@ def run(tier, seed, replay):
             md = strip_abs(vlib.abs_of_dump(y))
             if not in_domain(pre, req):
                 break
+            t0 = req.split(' ')
+            if t0[0] in ('remove', 'remove_all', 'move_p', 'copy', 'symlink', 'chmod', 'mkfile_m', 'write_all', 'append_all', 'mkfile') and any(
+                    a.startswith('x') and lexical(parse(pre)[0], bytes.fromhex(a[1:]).decode('utf8', 'replace')) == '2f' for a in t0[1:3]):
+                break      # the sandbox root stands in for '/': mutating it is outside the sandbox
             judged += 1
             seen.add(hash((pre, req)))
             same_out = (so.startswith('ok') == mo.startswith('ok')) and (not so.startswith('ok') or so == mo)
